@@ -139,6 +139,9 @@ DEFAULT_BBS = {
     "blk": {"inputs": ["a", "b"], "outputs": ["y", "z"]},
     "CELL1": {"inputs": ["A"], "outputs": ["Z"]},
     "obs": {"inputs": ["q", "Z"], "outputs": ["d"]},  # pin names of `ff` / `CELL1` with the opposite direction
+    "BUF": {"inputs": ["A"], "outputs": ["Y"]},  # a cell, not the primitive `buf`
+    "Nor": {"inputs": ["A", "B"], "outputs": ["Y"]},
+    "dffx": {"inputs": ["D", "RST$N"], "outputs": ["Q", "Q$N"]},  # `$` in pin names
 }
 
 
@@ -440,6 +443,11 @@ def render(rng, nl, layout="free", comments=0.0, shuffle=True, split_decl=None):
                 body = " ".join(rng.choice(LINE_COMMENT_WORDS) for _ in range(rng.randint(0, 3)))
                 return f" // {body}\n"
             body = " ".join(rng.choice(COMMENT_WORDS) for _ in range(rng.randint(0, 3)))
+            r_ = rng.random()
+            if r_ < 0.15:
+                return f" /* {body} **/ "  # the text ends in a star
+            if r_ < 0.25:
+                return " /*****/ " if rng.random() < 0.5 else f" /** {body} **/ "
             return f" /* {body} */ "
         return ""
 
@@ -577,7 +585,9 @@ def render(rng, nl, layout="free", comments=0.0, shuffle=True, split_decl=None):
             body.insert(0, ["wire", "zz_w", ";"])
     if shuffle:
         rng.shuffle(ports)
-    if not ports:
+    if neg == "empty_port_list":
+        ports = []
+    elif not ports:
         ports = ["zz_none"]
     head = ["module", nl["name"], "("]
     for i, p in enumerate(ports):
